@@ -227,7 +227,7 @@ pub fn prepare_lockstep(id: &'static str, sub: &'static str, flag_names: &'stati
         v.truncate(300);
         std::fs::write(seeds.join(format!("{:016x}.bin", fingerprint(&v))), v).unwrap();
     }
-    let runs = tier.pick(25_000, 1_500_000);
+    let runs = tier.pick(8_000, 600_000);
     let camp = Campaign {
         target: "lockstep",
         env: vec![("VFUZZ_FLAGS".into(), flag_names.into())],
